@@ -164,7 +164,19 @@ func (w *World) guard(fr *frame, mem *Memory, f func() (Value, *Outcome)) (out *
 // ---------------------------------------------------------------------------
 // operands
 
+// val fetches an operand for a use that is not exact modulo 2^w: a pending
+// wrap-around of the word (Int.pend) is a defect.
 func (w *World) val(fr *frame, v ssa.Value) Value {
+	x := w.valRaw(fr, v)
+	if xi, ok := x.(*Int); ok && xi.pend != nil {
+		return w.settle(xi)
+	}
+	return x
+}
+
+// valRaw fetches an operand without settling a pending wrap-around (for +,
+// -, * and <<, which continue with the unwrapped value).
+func (w *World) valRaw(fr *frame, v ssa.Value) Value {
 	switch v := v.(type) {
 	case *ssa.Const:
 		return w.constValue(v)
@@ -541,7 +553,13 @@ func (w *World) doSlice(fr *frame, in *ssa.Slice) Value {
 }
 
 func (w *World) doBinOp(fr *frame, in *ssa.BinOp) Value {
-	x, y := w.val(fr, in.X), w.val(fr, in.Y)
+	var x, y Value
+	switch in.Op {
+	case token.ADD, token.SUB, token.MUL, token.SHL:
+		x, y = w.valRaw(fr, in.X), w.valRaw(fr, in.Y)
+	default:
+		x, y = w.val(fr, in.X), w.val(fr, in.Y)
+	}
 	xi, okx := x.(*Int)
 	yi, oky := y.(*Int)
 	if okx && oky {
